@@ -322,9 +322,13 @@ def run(ctx):
     # arbitrary literals (ending in an escaped quote, with braces / semicolons / escapes) instead of the generator's "vN"
     nasty = ['"say \\"hi\\""', '"a\\"b"', '"x;y{z}#w"', '"\\\\"', '"\\x41\\u0042\\n"', '""', '"it\'s"', '"\\"quoted\\""', '"ends with backslash\\\\"',
              # raw control characters inside a literal (a literal may span lines; CR LF stays CR LF)
-             '"a\r\nb"', '"line1\nline2"', '"\r"', '"tab\there"', '"\r\n"']
+             '"a\r\nb"', '"line1\nline2"', '"\r"', '"tab\there"', '"\r\n"',
+             # hexadecimal digits in either case, mixed within one escape
+             '"\\x4D\\xfF\\xAb"', '"\\u00E9\\u00e9\\uABCD"', '"MZ\\xE8\\x00"']
     # names for named variants: everything but exactly "default" is a variant of its own and appears in the path
-    vnames = ['"default-2"', '"nondefault"', '"my default profile"', '"Default"', '"DEFAULT"', '"defaul"', '"variant x"']
+    vnames = ['"default-2"', '"nondefault"', '"my default profile"', '"Default"', '"DEFAULT"', '"defaul"', '"variant x"',
+              # names with the characters a path would be joined with
+              '"cdn.example.com"', '"v1.2"', '"a/b"', '"x.y.z."', '".hidden"']
     for s_ in rng.sample(chosen, min(len(chosen), 200 if q else 2000)):
         toks = list(s_["toks"])
         variant_lits = {toks[i] for i in range(len(toks) - 1) if toks[i + 1] == "{"}
@@ -338,6 +342,7 @@ def run(ctx):
         jobs.append((tuple(vsub.get(t, sub.get(t, t)) if (t in variant_lits and i + 1 < len(toks) and toks[i + 1] == "{") else sub.get(t, t) for i, t in enumerate(toks)), ents))
     # every sentence with a named variant once more under a name that merely contains / resembles "default"
     k = 0
+    renamed = []
     for s_ in chosen:
         toks = list(s_["toks"])
         vl = [i for i in range(len(toks) - 1) if toks[i + 1] == "{" and toks[i].startswith('"v')]
@@ -348,6 +353,15 @@ def run(ctx):
         old_name = toks[vl[0]]
         toks[vl[0]] = name
         jobs.append((tuple(toks), [dict(e, path=[name if c == old_name else c for c in e["path"]]) for e in s_["entries"]]))
+        renamed.append(jobs[-1])
+    # what follows a named variant: the block is left again, the statements behind it are listed under their own paths
+    for j_, (vt_, ve_) in enumerate(renamed):
+        if q and j_ % 2:
+            continue
+        others = [c_ for c_ in chosen if c_["toks"][0] != vt_[0]]
+        a_, b_ = rng.choice(others), rng.choice(others)
+        jobs.append((vt_ + tuple(a_["toks"]), ve_ + a_["entries"]))
+        jobs.append((tuple(b_["toks"]) + vt_ + tuple(a_["toks"]), b_["entries"] + ve_ + a_["entries"]))
     for _ in range(100 if q else 1500):
         parts = [rng.choice(chosen) for _ in range(rng.choice([2, 3, 4]))]
         jobs.append((tuple(t for p in parts for t in p["toks"]), [e for p in parts for e in p["entries"]]))
